@@ -46,7 +46,7 @@ def check_one(desc, acc):
     N, E = desc["nodes"], desc["edges"]
     base = dict(desc=C.show(desc))
     size = len(E) + len(N)
-    for detour in (False, True):
+    for detour in (False, True, 2):
         h = C.build(desc, detour=detour)
         w = dict(base, detour=detour)
 
